@@ -254,15 +254,64 @@ theorem map_shiftUp_zero (l : List Blk) : l.map (shiftUp 0) = l := by
   | nil => rfl
   | cons a r ih => simp only [List.map_cons, ih, shiftUp, Nat.add_zero]
 
-theorem chunkBlocks_eq (p : Par) (bs : List Blk) (h : inWindow p bs = true) :
-    chunkBlocks p bs = some (bs.map (shiftDown (offOf false p))) := by
+theorem good_pos : ∀ (bs : List Blk), good bs = true → ∀ b ∈ bs, b.1 < b.2
+  | [], _ => by intro b hb; simp at hb
+  | [a], h => by
+      intro b hb; simp only [List.mem_singleton] at hb; subst hb; simpa [good] using h
+  | a :: c :: rest, h => by
+      intro b hb
+      rcases List.mem_cons.mp hb with rfl | hb'
+      · exact good_head h
+      · exact good_pos (c :: rest) (good_tail h) b hb'
+
+theorem good_fst_lt : ∀ (bs : List Blk), good bs = true → bs.Pairwise (fun a b => a.1 < b.1)
+  | [], _ => by simp
+  | [a], _ => by simp
+  | a :: c :: rest, h => by
+      have hb := good_bounds a (c :: rest) h
+      have ha := good_head h
+      have hh := h
+      simp only [good, Bool.and_eq_true, decide_eq_true_eq] at hh
+      rw [List.pairwise_cons]
+      refine ⟨?_, good_fst_lt (c :: rest) hh.2⟩
+      intro y hy
+      have := good_bounds c rest hh.2 y hy
+      omega
+
+theorem blkLe_of_lt (st : Strand) (a b : Blk) (h : a.1 < b.1) : blkLe st a b = true := by
+  cases st <;> simp [blkLe, blkLePlus, blkLeOther, h]
+
+theorem sortLoc_of_fst_lt (st : Strand) : ∀ (bs : List Blk), bs.Pairwise (fun a b => a.1 < b.1) → sortLoc st bs = bs
+  | [], _ => rfl
+  | a :: l, h => by
+      rw [List.pairwise_cons] at h
+      simp only [sortLoc, sortLoc_of_fst_lt st l h.2]
+      cases l with
+      | nil => rfl
+      | cons c r => simp [insertBlk, blkLe_of_lt st a c (h.1 c (by simp))]
+
+theorem good_sorted (st : Strand) (bs : List Blk) (hg : good bs = true) : sortLoc st bs = bs :=
+  sortLoc_of_fst_lt st bs (good_fst_lt bs hg)
+
+theorem chunkBlocks_eq (st : Strand) (p : Par) (bs : List Blk) (h : inWindow p bs = true) (hg : good bs = true) :
+    chunkBlocks st p bs = some (bs.map (shiftDown (offOf false p))) := by
+  have hnc := good_sorted st bs hg
   cases p with
-  | none => simp [chunkBlocks, offOf, map_shiftDown_zero]
-  | chromosome => simp [chunkBlocks, offOf, map_shiftDown_zero]
+  | none => simp [chunkBlocks, offOf, map_shiftDown_zero, hnc]
+  | chromosome => simp [chunkBlocks, offOf, map_shiftDown_zero, hnc]
   | chunk cs ce =>
+    have hlow : ∀ b ∈ bs, cs ≤ b.1 := by
+      intro b hb
+      simp only [inWindow, List.all_eq_true, Bool.and_eq_true, decide_eq_true_eq] at h
+      exact (h b hb).1
     simp only [inWindow] at h
-    simp only [chunkBlocks, h, if_true, offOf]
-    rfl
+    have hf : bs.filter (fun b => decide (b.1 < b.2)) = bs :=
+      List.filter_eq_self.mpr (fun b hb => by simpa using good_pos bs hg b hb)
+    have hgs := good_shiftDown cs bs hg hlow
+    simp only [chunkBlocks, h, if_true, offOf, hf]
+    have : (bs.map fun b => (b.1 - cs, b.2 - cs)) = bs.map (shiftDown cs) := rfl
+    rw [this, good_sorted st _ hgs]
+    simp
 
 theorem inWindow_lower (p : Par) (bs : List Blk) (h : inWindow p bs = true) :
     ∀ b ∈ bs, offOf false p ≤ b.1 := by
@@ -331,7 +380,7 @@ theorem txCore_ok (rep chromRel : Bool) (x : Iv) (score : Nat) (rgb : Nat × Nat
             exact ⟨trivial, h1, by omega, h2⟩
     | false =>
       have hlow := inWindow_lower x.par (e0 :: erest) hwin
-      have hcb := chunkBlocks_eq x.par (e0 :: erest) hwin
+      have hcb := chunkBlocks_eq x.strand x.par (e0 :: erest) hwin hge
       have hbnd := good_bounds e0 erest hge
       have horigin : (if rep = true then (shiftDown (offOf false x.par) e0).1 else e0.1)
           = (shiftDown (offOf false x.par) e0).1 := by
@@ -371,7 +420,7 @@ theorem txCore_ok (rep chromRel : Bool) (x : Iv) (score : Nat) (rgb : Nat × Nat
           obtain ⟨⟨hgc, h1⟩, h2⟩ := hcds
           have hwc := inWindow_cds x.par e0 c0 erest crest hge hgc h1 h2 hwin
           have hlowc := inWindow_lower x.par (c0 :: crest) hwc
-          have hcc := chunkBlocks_eq x.par (c0 :: crest) hwc
+          have hcc := chunkBlocks_eq x.strand x.par (c0 :: crest) hwc hgc
           have hgc' := good_shiftDown (offOf false x.par) (c0 :: crest) hgc hlowc
           simp only [List.map_cons] at hgc' hcc
           refine ⟨_, by simp only [txCore, hex, hcb, hc, hcc, Bool.false_eq_true, if_false]; rfl, ?_⟩
@@ -420,6 +469,76 @@ theorem featCore_eq (rep chromRel : Bool) (x : Iv) (score : Nat) (rgb : Nat × N
     | true => simp only [hc, if_true]
     | false =>
       simp only [hc, Bool.false_eq_true, if_false]
+
+/-! ### columns that do not depend on the layout; block count in the domain; zero-length blocks -/
+
+/-- chrom, name, score, strand and colour columns are copied for EVERY interval (no domain restriction) -/
+theorem txCore_plain_columns (rep chromRel : Bool) (x : Iv) (score : Nat) (rgb : Nat × Nat × Nat) (sel : NameSel)
+    (b : Bed12) (h : txCore rep x score rgb sel chromRel = some b) :
+    b.chrom = x.seqName ∧ b.name = selName x sel ∧ b.score = score ∧ b.strand = x.strand ∧ b.rgb = rgb := by
+  unfold txCore at h
+  cases hex : x.exons with
+  | nil => rw [hex] at h; simp at h
+  | cons e0 erest =>
+    rw [hex] at h
+    cases chromRel with
+    | true =>
+      simp only [if_true, Option.some.injEq] at h
+      subst h; exact ⟨rfl, rfl, rfl, rfl, rfl⟩
+    | false =>
+      simp only [Bool.false_eq_true, if_false] at h
+      split at h
+      · split at h
+        · simp at h
+        · simp only [Option.some.injEq] at h
+          subst h; exact ⟨rfl, rfl, rfl, rfl, rfl⟩
+      · simp at h
+
+/-- a record without coding region carries the `0 0` thick convention, in both modes, for EVERY interval -/
+theorem txCore_noncoding_thick (rep chromRel : Bool) (x : Iv) (score : Nat) (rgb : Nat × Nat × Nat) (sel : NameSel)
+    (hc : x.cds = none) (b : Bed12) (h : txCore rep x score rgb sel chromRel = some b) :
+    b.thickStart = 0 ∧ b.thickEnd = 0 := by
+  unfold txCore at h
+  cases hex : x.exons with
+  | nil => rw [hex] at h; simp at h
+  | cons e0 erest =>
+    rw [hex] at h
+    cases chromRel with
+    | true =>
+      simp only [hc, if_true, Option.some.injEq] at h
+      subst h; exact ⟨rfl, rfl⟩
+    | false =>
+      simp only [hc, Bool.false_eq_true, if_false] at h
+      split at h
+      · simp only [Option.some.injEq] at h
+        subst h; exact ⟨rfl, rfl⟩
+      · simp at h
+
+/-- in the domain nothing is dropped: the record has as many blocks as the interval, in both modes -/
+theorem txCore_count (rep chromRel : Bool) (x : Iv) (score : Nat) (rgb : Nat × Nat × Nat) (sel : NameSel)
+    (hwf : wf x = true) (b : Bed12) (h : txCore rep x score rgb sel chromRel = some b) :
+    b.blockCount = x.exons.length ∧ b.blockSizes.length = x.exons.length ∧ b.blockStarts.length = x.exons.length := by
+  unfold wf at hwf
+  cases hex : x.exons with
+  | nil => rw [hex] at hwf; exact absurd hwf (by simp)
+  | cons e0 erest =>
+    rw [hex] at hwf
+    simp only [Bool.and_eq_true] at hwf
+    obtain ⟨⟨hge, hwin⟩, _⟩ := hwf
+    unfold txCore at h
+    rw [hex] at h
+    cases chromRel with
+    | true =>
+      simp only [if_true, Option.some.injEq] at h
+      subst h; simp [sizes, startsRel]
+    | false =>
+      have hcb := chunkBlocks_eq x.strand x.par (e0 :: erest) hwin hge
+      simp only [List.map_cons] at hcb
+      simp only [Bool.false_eq_true, if_false, hcb] at h
+      split at h
+      · simp at h
+      · simp only [Option.some.injEq] at h
+        subst h; simp [sizes, startsRel]
 
 /-- the constructor's own checks put every accepted interval with good block lists into the domain `wf`
     (in particular they give `thick ⊆ [start, end]`) -/
